@@ -39,6 +39,10 @@ GenM(name) ==
     [] name = "D1" -> [m |-> Perm(<<1, 2, 3, 4, 5, 6, 8, 7>>), e |-> 0]                  \* Toffoli matrix
     [] name = "D2" -> [m |-> Perm(<<1, 2, 3, 4, 5, 7, 6, 8>>), e |-> 0]                  \* Fredkin matrix
     [] name = "D3" -> [m |-> [r \in 1..8 |-> [c \in 1..8 |-> IF r = c THEN OOne ELSE IF r = 2 /\ c = 7 THEN OW ELSE OZero]], e |-> 0]
+    \* 16 x 16 for quadruple_qubit_gate: a 4-cycle of basis states 2 -> 7 -> 12 -> 13 -> 2 (no symmetry under any qubit permutation) / the same with a
+    \* non-unitary off-diagonal entry
+    [] name = "E1" -> [m |-> Perm(<<1, 7, 3, 4, 5, 6, 12, 8, 9, 10, 11, 13, 2, 14, 15, 16>>), e |-> 0]
+    [] name = "E2" -> [m |-> [r \in 1..16 |-> [c \in 1..16 |-> IF r = c THEN OOne ELSE IF r = 3 /\ c = 14 THEN OW ELSE IF r = 9 /\ c = 2 THEN <<0,0,2,0>> ELSE OZero]], e |-> 0]
 \* the semantic function: matrix of a gate record g = [op, par, ctrl, tg]
 GateMat(g) ==
   CASE g.op \in {"X"} -> GX [] g.op = "Y" -> GY [] g.op = "Z" -> GZ [] g.op = "H" -> GH [] g.op = "S" -> GS [] g.op = "T" -> GT
@@ -49,6 +53,6 @@ GateMat(g) ==
     [] g.op \in {"u3", "cu3"} -> GU3(g.par[1], g.par[2], g.par[3])
     [] g.op = "ry_rx" -> GRyRx(g.par[1], g.par[2])
     [] g.op = "oracle" -> GOracle(Len(g.tg) \div 2) [] g.op = "foracle" -> GFOracle(Len(g.tg) \div 2, g.par[1])
-    [] g.op \in {"single", "double", "triple", "csingle", "cdouble"} -> GenM(g.mat)
+    [] g.op \in {"single", "double", "triple", "quadruple", "csingle", "cdouble"} -> GenM(g.mat)
 IsUnitaryG(G) == OMatMul(G.m, ODagger(G.m)) = OMatScale(<<2^G.e, 0, 0, 0>>, OIdent(Len(G.m)))
 =============================================================================
